@@ -8,9 +8,19 @@ NOT_SHOWN = {
  "03": ["covariance is proved for the pipeline tensor `Model/Level2.tensor` (covariance_end_to_end: sources and Sensors moved together; "
         "covariance_positions_end_to_end: sources and position observers moved, vectors rotate by Q), i.e. before pixel_agg / sumup / squeeze; "
         "that those three commute with the rotation is not stated here (sumup and pixel_agg='sum' are sums, min/max do NOT commute with a rotation of the vectors)",
-        "the theorems are over an abstract Mathlib `Group G` acting by a `DistribMulAction` on `V`; that scipy Rotation, and the integer matrices the driver "
-        "computes with (`M3 Int`, inverse = transpose, NOT a group as a type), satisfy the group-action laws on the rotations actually used is an assumption "
-        "(no instance is proved; the level2 stream exercises the octahedral group only)"],
+        "carrier: the theorems are over an abstract Mathlib `Group G` acting by a `DistribMulAction` on `V`; the driver evaluates the same polymorphic "
+        "model at integer matrices (`M3 Int`, inverse = transpose, not a group as a type). PROVED since the octgroup session "
+        "(Lemmas/OctaCarrier.lean, Lemmas/OpHom.lean): the orthogonal integer matrices of determinant 1 (`IsOct`, the 24 octahedral rotations, the "
+        "only ones the streams send) form a `Group Oct` acting on `V3 Int` by a `DistribMulAction` with exactly the driver's product / transpose / "
+        "apply / ==, every model function is natural in the inclusion `Oct -> M3 Int` (tensor_at_Oct_eq_at_M3Int, getBH_at_Oct_eq_at_M3Int, "
+        "Node.step_at_Oct_eq_at_M3Int, ...), and the headline theorems are restated for the `M3 Int` evaluation under the decidable hypothesis that "
+        "all rotation matrices of the input are octahedral (`*_on_driver_carrier` in Props/C03-C06, C09, C10). "
+        "What REMAINS ASSUMED: (1) that scipy `Rotation` restricted to the 24 octahedral rotations composes / inverts / applies / compares like these "
+        "integer matrices -- validated exactly (integer data, scipy results snapped to the grid by vlib/octa.py, compared for equality) by the level2, "
+        "path and iface streams on the sampled inputs, not proved; (2) that for GENERAL rotations scipy `Rotation` is a group acting on R^3 up to "
+        "floating-point rounding -- the abstract-group theorems describe the code for arbitrary rotations only modulo this (DESIGN section 4); rounding is "
+        "looked at by the float oracle only; (3) non-octahedral integer matrices on the driver are outside every group-theoretic statement (the parser "
+        "accepts them, no stream sends them)"],
  "04": ["pixel_agg reductions other than sum/min/max (mean, median, std, ...) are not modelled; the theorem holds for any reduction function of the pixel list, the stream exercises sum/min/max"],
  "05": ["linearity of each class's kernel in its excitation (kernel-level, see C01/C02); proved here: the marshalling preserves it for any F"],
  "06": ["batch-level control flow inside kernels (rowwise_c: trimesh grouping, segment early return, cel n<10) — kernel model pending",
